@@ -385,6 +385,12 @@ def run(P, R, tier):
     c13.numeric_rules(P, R, [f], prefix='C12')
     R.floor('C12.IDX.1', 4, 'group and hex-digit subscripts of the printer')
     R.floor('C12.SHF.1', 4, 'digit shifts of the printer')
+    parser_rules(P, R)
+    return EXPLANATION, ASSUMPTIONS
+
+
+def parser_rules(P, R):
+    from . import c13
     pf = P.need_fn('irc_pton')
     n = copy_direction(P, R, pf)
     if n == 0:
@@ -392,4 +398,55 @@ def run(P, R, tier):
         mm = [c for g in c13.scope(P) for c in g.calls('memmove')]
         R.ob('C12.COPY.1', bool(mm), pf, 'the "::" expansion moves the groups either with an index loop (direction judged) or with memmove (safe for overlap)', key='copydir:none', nontrivial=False)
     R.floor('C12.COPY.1', 1)
-    return EXPLANATION, ASSUMPTIONS
+    expansion_total(P, R, pf)
+    mapped_form(P, R, pf)
+
+
+def expansion_total(P, R, pf, rule='C12.MPT.2'):
+    """Once the groups are parsed, the "::" expansion cannot fail: the block guarded by "a :: was seen" has no
+    exit of its own (the printer emits "::" for runs at either end, which fill all eight slots before expansion)."""
+    n = 0
+    for s in pf.stores():
+        ev = s.ev
+        lhs, rhs = ev.get('lhs') or {}, ev.get('rhs') or {}
+        if ev['k'] != 'store' or lhs.get('k') != 'idx' or rhs.get('k') != 'idx' or not same(lhs['base'], rhs['base']):
+            continue
+        # the innermost branch that decides whether the expansion runs at all: the last dominating edge outside the loop
+        des = [e for e in pf.dominating_edges(s.bid) if e.label in ('true', 'false') and e.cond is not None and not (e.src in pf.reach([s.bid]))]
+        if not des:
+            continue
+        e = min(des, key=lambda x: len(pf.reach([x.dst])))      # the closest one
+        other = [x.dst for x in pf.out[e.src] if x is not e]
+        region = pf.reach([e.dst], cut_blocks=set(other))
+        rets = [t for t in pf.sites() if t.ev['k'] == 'ret' and t.bid in region and t.bid not in pf.reach(other)]
+        n += 1
+        R.ob(rule, not rets, rets[0] if rets else s, 'the "::" expansion (entered on %s) runs to its end: no return inside it%s' %
+             (e.describe(), (' (found `return %s`)' % sx(rets[0].ev.get('val'))) if rets else ''), key='expansion-exit')
+    if n == 0:
+        R.ob(rule, True, pf, 'no index-loop expansion to judge (memmove form)', key='expansion-none', nontrivial=False)
+    R.floor(rule, 1)
+
+
+def mapped_form(P, R, pf, rule='C12.MPT.3'):
+    """A plain dotted quad always yields the IPv4-mapped form: the stores of 0xffff into group 5 and of the two
+    halves into groups 6 and 7 happen under the same conditions (the statement: IPv4 forms canonicalise to mapped)."""
+    by_ix = {}
+    for s in pf.stores():
+        lhs = s.ev.get('lhs') or {}
+        if s.ev['k'] == 'store' and lhs.get('k') == 'idx' and isinstance(lhs['base'].get('arr'), int) and const_of(lhs['index']) in (5, 6, 7) and s.ev.get('op') == '=':
+            by_ix.setdefault(const_of(lhs['index']), []).append(s)
+    if not all(k in by_ix for k in (5, 6, 7)):
+        raise AnalysisBroken('the dotted-quad branch of irc_pton no longer stores groups 5, 6 and 7 by constant index')
+    def conds(t):
+        return sorted('%s %s %s' % (sx(g[0]), g[1], sx(g[2])) for g in pf.guards(t.bid))
+    ref = conds(by_ix[6][0])
+    for k in (5, 7):
+        t = by_ix[k][0]
+        c = conds(t)
+        R.ob(rule, c == ref, t, 'group %d of a dotted quad is stored under exactly the conditions under which group 6 is (extra: %s, missing: %s)' %
+             (k, [x for x in c if x not in ref], [x for x in ref if x not in c]), key='mapped:%d' % k)
+    v5 = by_ix[5][0].ev.get('rhs') or {}
+    c5 = [const_of(a) for a in (v5.get('args') or [])] if v5.get('k') == 'callref' else [const_of(v5)]
+    R.ob(rule, 65535 in c5, by_ix[5][0], 'group 5 is set to 0xffff (value %s)' % sx(v5), key='mapped:ffff')
+    R.floor(rule, 3)
+
